@@ -84,13 +84,28 @@ func drainPool() {
 	pool = nil
 }
 
+// deepName makes the data directory path long (well beyond the length limit
+// of Unix socket paths), as data directories below deep home directories are.
+const deepName = "a-rather-long-directory-name-of-sixty-four-characters-in-total-x"
+
+// privateTemp creates a fresh directory to serve as one contender's TMPDIR.
+func privateTemp() string {
+	dir, err := os.MkdirTemp("", "c28-contender-tmp-")
+	if err != nil {
+		return os.TempDir()
+	}
+	return dir
+}
+
 func spawnWorker(data string) (*worker, error) {
 	exe, err := os.Executable()
 	if err != nil {
 		return nil, err
 	}
 	cmd := exec.Command(exe)
-	cmd.Env = append(os.Environ(), roleEnv+"=worker", "MUTAGEN_DATA_DIRECTORY="+data)
+	// Every contender has its own temporary directory, as processes started
+	// from different environments (login shell, cron, ssh) have.
+	cmd.Env = append(os.Environ(), roleEnv+"=worker", "MUTAGEN_DATA_DIRECTORY="+data, "TMPDIR="+privateTemp())
 	in, err := cmd.StdinPipe()
 	if err != nil {
 		return nil, err
@@ -153,7 +168,7 @@ func (w *worker) destroy() {
 // holder or none". It returns a violation text, or an error for harness
 // trouble (including timeouts, which are not verdicts).
 func runModel(c *ModelCase, root string) (violation string, killsOfHolder int, err error) {
-	data := filepath.Join(root, "data")
+	data := filepath.Join(root, "data", deepName, deepName)
 	if err := os.MkdirAll(data, 0o700); err != nil {
 		return "", 0, err
 	}
@@ -527,7 +542,7 @@ func judgeJournal(lines []jline) (violation string, intervals []interval, err er
 // runRace executes one round. timing is a non-empty text when the only
 // complaint is a timing one (handover took longer than the bound).
 func runRace(c *RaceCase, root string) (violation, timing string, st RaceStats, err error) {
-	data := filepath.Join(root, "data")
+	data := filepath.Join(root, "data", deepName, deepName)
 	if err = os.MkdirAll(data, 0o700); err != nil {
 		return
 	}
@@ -553,7 +568,7 @@ func runRace(c *RaceCase, root string) (violation, timing string, st RaceStats, 
 	}()
 	for i := range racers {
 		cmd := exec.Command(exe)
-		cmd.Env = append(os.Environ(), roleEnv+"=racer", "MUTAGEN_DATA_DIRECTORY="+data,
+		cmd.Env = append(os.Environ(), roleEnv+"=racer", "MUTAGEN_DATA_DIRECTORY="+data, "TMPDIR="+privateTemp(),
 			journalEnv+"="+journalPath, fmt.Sprintf("%s=%d", seedEnv, c.Seeds[i]), fmt.Sprintf("%s=%d", holdEnv, c.MaxHoldUS))
 		cmd.Stderr = os.Stderr
 		in, perr := cmd.StdinPipe()
